@@ -5,7 +5,8 @@
 From Coq Require Import ZArith.
 From CV Require Import Base.LinAlg Base.QcLin Model.C20_Diff Model.C20_Spec Proofs.C20_Gmrf Proofs.C20_Nullity.
 From mathcomp Require Import all_ssreflect all_algebra ssrZ.
-From CVmc Require Import C20_Rank.
+From CV Require Import Proofs.C20_Running.
+From CVmc Require Import C20_Rank C20_RankRunning.
 Set Implicit Arguments.
 Unset Strict Implicit.
 Unset Printing Implicit Defensive.
@@ -66,3 +67,15 @@ Theorem C20_coded_rank_order2_neumann_refuted : forall dim, (2 <= dim)%N ->
   exists g, gmrf_init 1 dim Neumann 2 = Some g /\ \rank (precQ dim g) = dim.-2 /\ g_rank g = dim.-1.
 Proof. exact: gmrf_coded_rank_order2_neumann_wrong. Qed.
 Print Assumptions C20_coded_rank_order2_neumann_refuted.
+
+(* the model instance that RUNS against the repaired tree (accumulating periodic patches fd_matrix_acc, repaired rank
+   rule): the reported rank is \rank of the precision for EVERY field it builds -- no guard left *)
+Theorem C20_running_rank_is_rank_1d : forall dim b order g,
+  gmrf_init_gen fd_matrix_acc true 1 dim b order = Some g -> \rank (precQ dim g) = g_rank g.
+Proof. exact: running_rank_is_rank_1d. Qed.
+Print Assumptions C20_running_rank_is_rank_1d.
+
+Theorem C20_running_rank_is_rank_2d : forall N b order g,
+  gmrf_init_gen fd_matrix_acc true 2 (N * N) b order = Some g -> \rank (precQ (N * N) g) = g_rank g.
+Proof. exact: running_rank_is_rank_2d. Qed.
+Print Assumptions C20_running_rank_is_rank_2d.
